@@ -18,7 +18,7 @@ from irsx.engine import Extract
 from irsx.smat import M, vars_, ZERO, ONE
 from . import groups as G_
 from .common import guarded, Results, prove_pairs, ok_paths
-from .lie import Fn, mat_pairs, vec_pairs, tangent_sampler, subst_fn, series_pairs, signvars
+from .lie import Fn, mat_pairs, vec_pairs, tangent_sampler, subst_fn, series_pairs, signvars, rounding_standin
 from .c02 import pick_path
 from .c04 import closed_for_small
 
@@ -95,6 +95,12 @@ def run_group(gname, s, tier="quick", seed=0, canary=False):
             if edge:
                 res.unverified.append("%s::%s: %d measure-zero path(s) with |a_rot|^2 == eps2 exactly" % (ct, hn, len(edge)))
     guarded(res, tag + "::taylor", do_taylor)
+
+    def do_standin():
+        btol = Fraction(1, 10 ** 5) if s == "d" else Fraction(1, 10)
+        for hn, f in fH.items():
+            rounding_standin(res, "%s::%s" % (tag, hn), f, G, btol, "h", tier, seed, tscales=(1.0, 1e3), max_rot=3.0)
+    guarded(res, tag + "::standin", do_standin)
 
     def do_rminus():
         f1 = Fn(G, s, "d2r_rminus", [("a", N), ("h", N * N * N)])
